@@ -67,10 +67,17 @@ inductive FKind where
   | write (h : Nat) (op : OWorld.WOp Nat)
   | rguard
   | wguard
+  /-- `Subscriber::<_, AsyncLock>::next_ref()` (async_lock.rs:96-101) of subscriber `i`: first the update check
+      through the subscriber's reusable lock future (phase A, `st = idle`), then a second, fresh read-lock
+      acquisition (phase B, queued / granted like a read guard) under which the version is marked observed -/
+  | nextRef (i : Nat)
 
 structure AFut where
   kind : FKind
   st : FSt
+
+/-- waker identity of future `k` (subscriber `i` polled as a stream has waker identity `i`) -/
+def futWaker (k : Nat) : Nat := 1000 + k
 
 structure AWorld where
   w : OWorld Nat
@@ -101,16 +108,16 @@ def AWorld.releaseN (a : AWorld) (n : Nat) : AWorld × List AOwner :=
 
 /-- `Subscriber::<_, AsyncLock>::poll_next` (async_lock.rs:94-116): wait for the read lock through the reusable
     future, then the same `poll_update`; the lock is released when the poll returns -/
-def AWorld.pollSub (a : AWorld) (i : Nat) :
+def AWorld.pollSub (a : AWorld) (i : Nat) (wk : Nat := i) :
     Option (AWorld × PollRes Nat × List AOwner) :=
   if !a.w.subAlive i then none else
   let st := a.subLock.getD i .idle
   let proceed (a : AWorld) : Option (AWorld × PollRes Nat × List AOwner) :=
-    match a.w.poll i with
+    match a.w.pollW i wk with
     | none => none
     | some (w', r) =>
-      let (a', wk) := { a with w := w', subLock := lset a.subLock i .idle }.releaseN 1
-      some (a', r, wk)
+      let (a', lw) := { a with w := w', subLock := lset a.subLock i .idle }.releaseN 1
+      some (a', r, lw)
   match st with
   | .idle | .done =>
     let (s, ok) := a.sem.acquire (.sub i) 1
@@ -122,7 +129,7 @@ def AWorld.pollSub (a : AWorld) (i : Nat) :
 /-- first poll of a new call / guard future -/
 def AWorld.startFut (a : AWorld) (kind : FKind) : AWorld × Nat × Bool :=
   let k := a.futs.length
-  let need := match kind with | .rguard => 1 | _ => a.sem.max
+  let need := match kind with | .rguard => 1 | .nextRef _ => 1 | _ => a.sem.max
   let (s, ok) := a.sem.acquire (.fut k) need
   ({ a with sem := s, futs := a.futs ++ [{ kind, st := if ok then .granted else .queued }] }, k, ok)
 
@@ -143,7 +150,51 @@ def AWorld.finishFut (eqv : Nat → Nat → Bool) (hash : Nat → Nat) (a : AWor
         let rs := match r with | .unit => "-" | .val v => toString v | .opt none => "none" | .opt (some v) => "some(" ++ toString v ++ ")"
         some (a1, rs, lw, wk)
     | .rguard => some ({ a0 with guards := a0.guards ++ [1] }, "guard " ++ toString a0.guards.length, [], [])
+    | .nextRef i =>
+      -- phase B completes: `next_ref_now` marks the version it sees as observed; the guard shows the value
+      match a0.w.nextNow i with
+      | none => none
+      | some (w', v) =>
+        some ({ a0 with w := w', guards := a0.guards ++ [1] }, "guard " ++ toString a0.guards.length ++ " " ++ toString v, [], [])
     | .wguard => some ({ a0 with guards := a0.guards ++ [a0.sem.max] }, "guard " ++ toString a0.guards.length, [], [])
+
+/-- a `next_ref()` future of subscriber `i` is created (nothing happens until it is polled) -/
+def AWorld.newNextRef (a : AWorld) (i : Nat) : AWorld × Nat :=
+  ({ a with futs := a.futs ++ [{ kind := .nextRef i, st := .idle }] }, a.futs.length)
+
+/-- a `next_ref()` future is polled. Result text: `Pending`, `none` (the observable is gone) or the guard. -/
+def AWorld.pollNextRef (eqv : Nat → Nat → Bool) (hash : Nat → Nat) (a : AWorld) (k : Nat) :
+    Option (AWorld × Option String × List AOwner) :=
+  match a.futs[k]? with
+  | none => none
+  | some f =>
+    match f.kind with
+    | .nextRef i =>
+      match f.st with
+      | .idle =>
+        -- phase A: `poll_fn(|cx| self.poll_update(cx))`
+        match a.pollSub i (futWaker k) with
+        | none => none
+        | some (a1, r, lw) =>
+          match r with
+          | .pending => some (a1, none, lw)
+          | .done => some ({ a1 with futs := a1.futs.set k { f with st := .done } }, some "none", lw)
+          | .ready _ =>
+            -- phase B: `self.state.inner.lock().await`, a new `Acquire` at the back of the queue
+            let (s, ok) := a1.sem.acquire (.fut k) 1
+            let a2 := { a1 with sem := s, futs := a1.futs.set k { f with st := if ok then .granted else .queued } }
+            if ok then
+              match a2.finishFut eqv hash k with
+              | some (a3, rs, _, _) => some (a3, some rs, lw)
+              | none => none
+            else some (a2, none, lw)
+      | .queued => some (a, none, [])
+      | .granted =>
+        match a.finishFut eqv hash k with
+        | some (a3, rs, lw, _) => some (a3, some rs, lw)
+        | none => none
+      | .done => none
+    | _ => none
 
 /-- dropping a guard releases its permits -/
 def AWorld.dropGuard (a : AWorld) (g : Nat) : Option (AWorld × List AOwner) :=
@@ -156,9 +207,10 @@ def AWorld.dropFut (a : AWorld) (k : Nat) : Option (AWorld × List AOwner) :=
   match a.futs[k]? with
   | none => none
   | some f =>
-    let need := match f.kind with | .rguard => 1 | _ => a.sem.max
+    let need := match f.kind with | .rguard => 1 | .nextRef _ => 1 | _ => a.sem.max
     let a0 := { a with futs := a.futs.set k { f with st := .done } }
     match f.st with
+    | .idle => (match f.kind with | .nextRef _ => some (a0, []) | _ => none)   -- phase A: the lock future belongs to the subscriber
     | .queued =>
       let (s, wk) := a0.sem.cancel (.fut k)
       some ({ a0 with sem := s }.grant wk, wk)
